@@ -5,6 +5,7 @@
    inverts the Exiting() test, registers exiting objects on reconnect, drops the negative-size
    refusal or starts the pump before the lookupd channels exist. *)
 From Coq Require Import List NArith ZArith Bool.
+From RecordUpdate Require Import RecordUpdate.
 From NSQV Require Import gen.Consts gen.SyncTab model.Judge model.Sync
   proofs.SyncBase proofs.SyncInv proofs.SyncLoop proofs.SyncConv proofs.SyncData proofs.SyncProps.
 Import ListNotations.
@@ -29,9 +30,7 @@ Print Assumptions C16_no_panic_from_any_state.
 
 (* the reader itself, for every limit and every byte sequence *)
 Theorem C16_reader_no_panic : forall limit buf,
-  read_response_bounded (mkCfg (g_neg repo_cfg) (g_limit repo_cfg) limit (g_close repo_cfg) (g_reg_topics repo_cfg)
-     (g_reg_chans repo_cfg) (g_skip_exiting repo_cfg) (g_unreg_topic repo_cfg) (g_unreg_chan repo_cfg) (g_precreate_first repo_cfg) (g_skip_eph repo_cfg)) buf
-  <> RRPanic.
+  read_response_bounded (repo_cfg <| g_max := limit |>) buf <> RRPanic.
 Proof. exact repo_reader_no_panic. Qed.
 Print Assumptions C16_reader_no_panic.
 
@@ -69,6 +68,26 @@ Theorem C16_K6b_without_the_skip :
   end.
 Proof. exact k6b_without_the_skip. Qed.
 Print Assumptions C16_K6b_without_the_skip.
+
+(* the channel-deletion window (K6c): a reconnect while a topic's ONLY channel is exiting but still in
+   channelMap.  connectCallback skips the channel and registers the bare topic because no LIVE channel
+   was registered; with the test `len(topic.channelMap) == 0` instead, the topic is lost *)
+Theorem C16_K6c_converges :
+  hazard_free repo_cfg (Run init) (k6c_hist ++ k6c_suf) = true /\
+  match run repo_cfg (Run init) (k6c_hist ++ k6c_suf) with
+  | Run s => bag s = [] /\ live_keys (objs s) = [KT 0%N] /\ map l_regs (links s) = [[KT 0%N]]
+  | Crashed => False
+  end.
+Proof. exact k6c_converges. Qed.
+Print Assumptions C16_K6c_converges.
+
+Theorem C16_K6c_with_len_channelMap :
+  match run cfg_bare_only_when_map_empty (Run init) (k6c_hist ++ k6c_suf) with
+  | Run s => bag s = [] /\ live_keys (objs s) = [KT 0%N] /\ map l_regs (links s) = [[]]
+  | Crashed => False
+  end.
+Proof. exact k6c_with_len_channelMap. Qed.
+Print Assumptions C16_K6c_with_len_channelMap.
 
 (* The strongest true statements.  (1) Every history — any creations and deletions (two-step,
    interleaved), any fault scripts, restarts, reconfigurations, any interleaving — whose loop
@@ -117,6 +136,36 @@ Theorem C16_precreate_query : forall os s t i k ch,
   In ch (d_want (getD (x_dats x') i)) /\ d_started (getD (x_dats x') i) = false.
 Proof. exact repo_precreate_query. Qed.
 Print Assumptions C16_precreate_query.
+
+(* ... for EVERY subset of failing nsqlookupds the recorded set is exactly the non-ephemeral channels
+   known to the asked lookupds that answer: a failing one takes nothing away (the len(errs) rule of
+   GetLookupdTopicChannels, read from the source into [g_partial_query]); all failing => none ... *)
+Theorem C16_precreate_exact : forall os s t i ch,
+  run repo_cfg (Run init) os = Run s ->
+  find_topic (objs s) t = Some i -> d_pc (getD (dats s) i) = 0 ->
+  let x' := data_step repo_cfg (links s) (TopicAdvance t) (mkDs (objs s) (dats s) (bag s)) in
+  (In ch (d_want (getD (x_dats x') i)) <->
+   eph ch = false /\
+   exists k, In k (links s) /\ k_conf k = true /\ k_info k = true /\ l_up k = true /\ l_http k = true /\
+             In (t, ch) (l_known k)).
+Proof. exact repo_precreate_exact. Qed.
+Print Assumptions C16_precreate_exact.
+
+Theorem C16_precreate_all_fail : forall ls t,
+  (forall k, In k ls -> asked k = true -> answers k = false) -> query repo_cfg ls t = [].
+Proof. exact repo_precreate_all_fail. Qed.
+Print Assumptions C16_precreate_all_fail.
+
+(* (two nsqlookupds, the second one's HTTP interface down, the first knows channel 2 of topic 7: it is
+   pre-created and receives the first message; under "any error => no data" it would not exist) *)
+Theorem C16_partial_query_matters :
+  match run repo_cfg (Run init) two_lookupds_one_http_down, run cfg_query_all_or_nothing (Run init) two_lookupds_one_http_down with
+  | Run s, Run s' => map (fun j => (o_c (getO (objs s) j), d_q (getD (dats s) j))) (chans_of (objs s) 0) = [(2, [1])]%N /\
+                     chans_of (objs s') 0 = []
+  | _, _ => False
+  end.
+Proof. exact partial_query_matters. Qed.
+Print Assumptions C16_partial_query_matters.
 
 (* ... at the step that calls Start, every recorded channel has its Channel object, with
    nothing delivered to it yet and the topic's queue (first message included) untouched ... *)
